@@ -145,8 +145,27 @@ pub fn send_entry<'a>(m: &'a mut FxHashMap<super::code::StreamId, Option<Box<Sen
 pub fn send_get<'a>(m: &'a mut FxHashMap<super::code::StreamId, Option<Box<Send>>>, id: super::code::StreamId) -> (r: Option<&'a mut Send>)
     // every Send kept in the map has a well-formed buffer (SendBuffer::wf, kept by every SendBuffer operation: unit send_buffer) and
     // nothing queued for retransmission has been acknowledged (caller discipline, see rwf there)
-    ensures r matches Some(st) ==> st.pending.ok()
+    ensures match r {
+        Some(st) => st.pending.ok() && send_abs(*old(m), id) == Some(*st) && send_abs(*final(m), id) == Some(*final(st))
+            && forall|o: super::code::StreamId| o != id ==> send_abs(*final(m), o) == send_abs(*old(m), o),
+        None => *final(m) == *old(m),
+    }
 { unimplemented!() }
+/// concatenation of frame images
+pub open spec fn flat(s: Seq<Seq<u8>>) -> Seq<u8> decreases s.len() { if s.len() == 0 { Seq::empty() } else { flat(s.drop_last()) + s.last() } }
+pub proof fn lemma_flat_push(s: Seq<Seq<u8>>, x: Seq<u8>) ensures flat(s.push(x)) == flat(s) + x { assert(s.push(x).drop_last() =~= s); }
+/// the bytes stream `s` stores at the offsets of `m` (nothing for an empty frame, e.g. a bare FIN)
+pub open spec fn stream_payload(s: Send, m: frame::StreamMeta) -> Seq<u8> {
+    if m.offsets.start < m.offsets.end { s.pending.stored().subrange(m.offsets.start - s.pending.base(), m.offsets.end - s.pending.base()) } else { Seq::empty() }
+}
+/// `img` is a STREAM frame for `m`: header image (with or without length field) followed by exactly the bytes the stream stores at m.offsets
+pub open spec fn stream_frame_ok(img: Seq<u8>, m: frame::StreamMeta, sends: FxHashMap<super::code::StreamId, Option<Box<Send>>>) -> bool {
+    match send_abs(sends, m.id) {
+        Some(s) => m.offsets.start <= m.offsets.end <= s.pending.end() && (m.offsets.start < m.offsets.end ==> s.pending.base() <= m.offsets.start)
+            && exists|lf: bool| img =~= #[trigger] frame::meta_image(m, lf) + stream_payload(s, m),
+        None => false,
+    }
+}
 /// the peer's transport parameters, as far as StreamsState::set_params reads them
 pub struct TransportParameters {
     pub initial_max_stream_data_uni: VarInt, pub initial_max_stream_data_bidi_local: VarInt, pub initial_max_stream_data_bidi_remote: VarInt,
@@ -381,19 +400,35 @@ impl StreamsState {
             final(buf)@.len() >= old(buf)@.len(), final(buf)@.take(old(buf)@.len() as int) == old(buf)@,
             // every frame reported to the caller is a well-formed range
             forall|i: int| 0 <= i < r@.len() ==> (#[trigger] r@[i]).offsets.start <= r@[i].offsets.end,
+            // C01 / C10: what was appended is one STREAM frame per reported range, each carrying exactly the bytes its stream stores there
+            exists|imgs: Seq<Seq<u8>>| imgs.len() == r@.len() && final(buf)@ == old(buf)@ + flat(imgs)
+                && forall|i: int| 0 <= i < r@.len() ==> stream_frame_ok(#[trigger] imgs[i], r@[i], old(self).send),
 //@ at-start
         let ghost maxb = max_buf_size;
         let ghost buf0 = buf@;
         let ghost mut nolen = false;
+        let ghost mut imgs: Seq<Seq<u8>> = Seq::empty();
+        let ghost sends0 = self.send;
 //@ loop 0
             invariant
                 max_buf_size == maxb, maxb <= 0x7fff_ffff_ffff_0000, buf@.len() <= maxb, buf@.len() >= buf0.len(), buf@.take(buf0.len() as int) == buf0, buf0 == old(buf)@,
                 forall|i: int| 0 <= i < stream_frames@.len() ==> (#[trigger] stream_frames@[i]).offsets.start <= stream_frames@[i].offsets.end,
                 // a frame written without a length field runs to the end of the packet: nothing may follow it
                 nolen ==> buf@.len() == maxb,
+                imgs.len() == stream_frames@.len(), buf@ == buf0 + flat(imgs),
+                forall|i: int| 0 <= i < stream_frames@.len() ==> stream_frame_ok(#[trigger] imgs[i], stream_frames@[i], sends0),
+                // sending does not change what a stream stores
+                forall|o: StreamId| (#[trigger] send_abs(self.send, o)) matches Some(s1) ==> (send_abs(sends0, o) matches Some(s0)
+                    && s1.pending.stored() == s0.pending.stored() && s1.pending.base() == s0.pending.base() && s1.pending.end() == s0.pending.end()),
             decreases maxb - buf@.len(), self.pending.qlen()
 //@ loop-start 0
             let ghost l0 = buf@.len();
+            let ghost bufl0 = buf@;
+//@ after let Some(stream) = self.send.get_mut(&id)
+            let ghost sg = *stream;
+            proof {
+                assert(send_abs(sends0, id) matches Some(s0) && sg.pending.stored() == s0.pending.stored() && sg.pending.base() == s0.pending.base() && sg.pending.end() == s0.pending.end());
+            }
 //@ after meta.encode(
             let ghost lm = buf@.len();
             let ghost bufm = buf@;
@@ -404,6 +439,7 @@ impl StreamsState {
                 invariant
                     meta.offsets.start <= offsets.start <= offsets.end, offsets.end == meta.offsets.end,
                     stream.pending.ok(), offsets.end <= stream.pending.end(), offsets.start < offsets.end ==> stream.pending.base() <= offsets.start,
+                    stream.pending.stored() == sg.pending.stored() && stream.pending.base() == sg.pending.base() && stream.pending.end() == sg.pending.end(),
                     buf@.len() == lm + (offsets.start - meta.offsets.start),
                     buf@.take(lm as int) == bufm,
                     // C01: the payload of the frame is what the stream stores at these offsets
@@ -414,6 +450,27 @@ impl StreamsState {
             proof {
                 nolen = !encode_length;
                 assert(buf@.take(buf0.len() as int) =~= buf0) by { assert(bufm.take(buf0.len() as int) == buf0); }
+                let img = buf@.skip(l0 as int);
+                let st0 = send_abs(sends0, id)->Some_0;
+                let mi = frame::meta_image(meta, encode_length);
+                assert(bufm =~= bufl0 + mi);
+                assert(buf@.len() >= lm && lm == l0 + mi.len());
+                assert(buf@.take(l0 as int) =~= bufl0) by { assert(buf@.take(lm as int).take(l0 as int) =~= buf@.take(l0 as int)); assert(bufm.take(l0 as int) =~= bufl0); }
+                assert(img =~= mi + buf@.skip(lm as int)) by {
+                    assert forall|j: int| 0 <= j < mi.len() implies img[j] == mi[j] by { assert(buf@.take(lm as int)[l0 + j] == bufm[l0 + j]); }
+                }
+                assert(stream.pending.stored() == st0.pending.stored() && stream.pending.base() == st0.pending.base() && stream.pending.end() == st0.pending.end());
+                assert(stream_frame_ok(img, meta, sends0)) by {
+                    if meta.offsets.start < meta.offsets.end {
+                        assert(buf@.skip(lm as int) =~= st0.pending.stored().subrange(meta.offsets.start - st0.pending.base(), meta.offsets.end - st0.pending.base()));
+                    } else {
+                        assert(buf@.skip(lm as int) =~= Seq::<u8>::empty());
+                    }
+                    assert(img =~= frame::meta_image(meta, encode_length) + stream_payload(st0, meta));
+                }
+                lemma_flat_push(imgs, img);
+                assert(buf@ =~= bufl0 + img);
+                imgs = imgs.push(img);
             }
 //@ end
 //@ extract quinn-proto/src/connection/streams/state.rs :: impl StreamsState::fn received_max_stream_data
